@@ -513,9 +513,48 @@ def tiling(ctx, P):
            "%d paths" % n, witness=bad[0].view.witness() if bad else None)
 
 
+def state_lives_in_the_checker(ctx, P):
+    """'the same verdict however the text is presented' includes: interleaved with other texts.  Everything the validator remembers
+    between two bytes lives in the checker object the caller passes; no function of utf8_checker.c writes a variable of static
+    storage (bounds kept in file-scope statics are overwritten by the next lead byte of ANY checker)"""
+    bad = []
+    n = 0
+    for f in P.own_functions():
+        if f.base != "utf8_checker.c":
+            continue
+        n += 1
+        for i in f.all_insts():
+            if i.op == "store":
+                lv, _ = Q.leaves(P, f, i.a[1], through_loads=False)
+                if any(l[0] == "global" for l in lv):
+                    bad.append((f, i, [l[1] for l in lv if l[0] == "global"][0]))
+    ctx.ob("C18.1 R-EFFECT", P.fn("utf8_checker.c:cjet_init_checker"), "no-state-outside-the-checker-object", not bad and n >= 5,
+           "%s() stores into the static variable %s at %s: validator state that is shared by all checkers - a text split after a lead "
+           "byte gets the bounds another checker has set in between" % ((bad[0][0].srcname, bad[0][2], bad[0][1].loc) if bad else ("", "", "")))
+
+
+def lengths_keep_their_width(ctx, P):
+    """the auto-aligned front end splits the text into head, aligned middle and tail by arithmetic on byte_length: none of these
+    values is cut to a narrower integer on the way (a 32-bit piece length wraps at 4 GiB, the tail pointer lands inside the text and
+    its last bytes are never looked at)"""
+    f = P.fn("utf8_checker.c:cjet_is_word_sequence_valid_auto_alligned")
+    ln = ("param", 2, f.params[2]["name"])
+    bad = []
+    for i in f.all_insts():
+        if i.op == "trunc":
+            t = P.term(f, i.a[0])
+            if Q.mentions(t, lambda x: x == ln or (x[0] == "param" and x[1] == 1)) and i.ty not in ("i1",):
+                bad.append(i)
+    ctx.ob("C18.4 R-BOUND", f, "piece-lengths-are-not-narrowed", not bad,
+           "a value computed from the length or the address of the text is truncated to %s at %s: beyond that width the pieces handed to "
+           "the validators no longer tile the text" % ((bad[0].ty, bad[0].loc) if bad else ("", "")))
+
+
 def run(ctx):
     for cfg in ctx.configs(["default", "uchar"]):
         P = cfg.P
+        state_lives_in_the_checker(ctx, P)
+        lengths_keep_their_width(ctx, P)
         f, ev, st0 = extract(ctx, P)
         trans, start, impl_states = product(ctx, P, f, ev, st0)
         ctx.note("extracted automaton: %d reachable states" % len(impl_states))
